@@ -3,7 +3,7 @@
 A refactoring is kept when, in a fresh scratch worktree of /repo HEAD: the patch applies, the pinned suite stays green
 (tools/baseline_check.py: missing=0) and every kept seeded demo of the same property (seeded/<ID>-*/demo.py, each exits 0 on
 the unmodified tree) still exits 0 on the refactored tree.
-usage: SEED_SRC=/tmp/wt4 tools/benign_confirm.py C05 1 [C05 2 ...]"""
+usage: SEED_SRC=/tmp/wt4 [BENIGN_OFFSET=2] tools/benign_confirm.py C05 1 [C05 2 ...]"""
 import json, os, shutil, subprocess, sys, tempfile
 from concurrent.futures import ThreadPoolExecutor
 V = os.path.dirname(os.path.dirname(os.path.abspath(__file__)))
@@ -42,7 +42,7 @@ def confirm(pid, n):
         ran.append(f"{len(demos)} seeded demos of {pid} on the refactored tree: {'all exit 0' if not bad else 'FAIL ' + ','.join(bad)}")
         ok = rcb == 0 and not bad
         if ok:
-            dst = f"{V}/benign/{pid}-b{n}"
+            dst = f"{V}/benign/{pid}-b{int(n) + int(os.environ.get('BENIGN_OFFSET', '0'))}"
             os.makedirs(dst, exist_ok=True)
             rc, diff = sh(["git", "diff", "HEAD"], cwd=wt)
             open(f"{dst}/patch.diff", "w").write(diff)
